@@ -18,6 +18,7 @@ pub struct Account {
     pub user: String,
 }
 
+#[allow(dead_code)]
 #[derive(Clone, Debug)]
 pub struct Node {
     pub cfg: NodeCfg,
@@ -226,6 +227,7 @@ impl Wire {
         s
     }
 
+    #[allow(dead_code)]
     pub fn path_end(&self) -> usize {
         self.target.iter().position(|c| *c == b'?').unwrap_or(self.target.len())
     }
